@@ -43,7 +43,15 @@ pub fn loop_scenario(
     let body: crate::rt::Body = Arc::new(move || {
         let (cases, nontrivial, fail) = run();
         log(Ev::Note("cases", vec![cases as i64, nontrivial as i64]));
+        if STOPPED.with(|s| s.replace(false)) {
+            log(Ev::Note("capped", vec![]));
+        }
         if let Some(f) = fail {
+            log(Ev::Text("fail-sig", f.sig));
+            log(Ev::Text("fail-msg", f.msg));
+        }
+        // further failures with other signatures (see `FailSet`)
+        for f in take_extra_fails() {
             log(Ev::Text("fail-sig", f.sig));
             log(Ev::Text("fail-msg", f.msg));
         }
@@ -55,24 +63,19 @@ pub fn loop_scenario(
                 format!("enumeration did not complete: {:?}", r.status),
             ));
         }
-        let mut sig = None;
-        let mut msg = String::new();
-        for e in &r.log {
-            match e {
-                Ev::Text("fail-sig", s) => sig = Some(s.clone()),
-                Ev::Text("fail-msg", s) => msg = s.clone(),
-                _ => {}
-            }
-        }
-        match sig {
-            Some(s) => Err(Fail::new(s, msg)),
+        match logged_fails(&r.log).into_iter().next() {
+            Some(f) => Err(f),
             None => Ok(hash_of(&r.log)),
         }
     });
     Scenario {
         name,
         descr,
-        params: EnvParams::default(),
+        params: EnvParams {
+            max_steps: usize::MAX / 2,
+            channel_capacity: 64,
+            ..Default::default()
+        },
         body,
         check,
         bound: 0,
@@ -87,6 +90,9 @@ pub fn loop_scenario(
 pub fn sequences(k: usize, len: usize, mut f: impl FnMut(&[usize])) {
     let mut cur = vec![0usize; len];
     loop {
+        if out_of_time() {
+            return;
+        }
         f(&cur);
         let mut i = len;
         loop {
@@ -131,4 +137,178 @@ pub fn counted_stream<T: Clone + Send + Sync + 'static>(
         env.stream(ScriptSource::new(vec![script], Replication::One).counted(c.clone())),
         c,
     )
+}
+
+/// All (signature, message) pairs a loop scenario logged.
+pub fn logged_fails(logv: &[Ev]) -> Vec<Fail> {
+    let mut out: Vec<Fail> = vec![];
+    let mut sig: Option<String> = None;
+    for e in logv {
+        match e {
+            Ev::Text("fail-sig", s) => sig = Some(s.clone()),
+            Ev::Text("fail-msg", m) => {
+                if let Some(s) = sig.take() {
+                    if !out.iter().any(|f| f.sig == s) {
+                        out.push(Fail::new(s, m.clone()));
+                    }
+                }
+            }
+            _ => {}
+        }
+    }
+    out
+}
+
+thread_local! {
+    static EXTRA: std::cell::RefCell<Vec<Fail>> = const { std::cell::RefCell::new(Vec::new()) };
+}
+
+fn take_extra_fails() -> Vec<Fail> {
+    EXTRA.with(|e| std::mem::take(&mut *e.borrow_mut()))
+}
+
+/// Keeps the first failure of every distinct signature, so that an enumeration goes on after a
+/// failure (a known finding must not hide a different violation). `first()` is what the loop
+/// scenario returns; the others are picked up by the scenario wrapper.
+#[derive(Default)]
+pub struct FailSet {
+    fails: Vec<Fail>,
+}
+
+impl FailSet {
+    pub fn add(&mut self, f: Option<Fail>) {
+        if let Some(f) = f {
+            if self.fails.len() < 6 && !self.fails.iter().any(|x| x.sig == f.sig) {
+                self.fails.push(f);
+            }
+        }
+    }
+    pub fn extend(&mut self, fs: Vec<Fail>) {
+        for f in fs {
+            self.add(Some(f));
+        }
+    }
+    pub fn full(&self) -> bool {
+        self.fails.len() >= 6
+    }
+    pub fn is_empty(&self) -> bool {
+        self.fails.is_empty()
+    }
+    /// Hand over: the first failure is returned, the rest is stashed for the wrapper.
+    pub fn first(mut self) -> Option<Fail> {
+        if self.fails.is_empty() {
+            return None;
+        }
+        let first = self.fails.remove(0);
+        EXTRA.with(|e| *e.borrow_mut() = self.fails);
+        Some(first)
+    }
+}
+
+thread_local! {
+    static STOPPED: std::cell::Cell<bool> = const { std::cell::Cell::new(false) };
+    static TICK: std::cell::Cell<u32> = const { std::cell::Cell::new(0) };
+}
+
+/// To be polled inside long enumerations: true once the wall-clock budget is used up (the
+/// scenario is then reported as capped, never as exhaustive).
+pub fn out_of_time() -> bool {
+    if STOPPED.with(|s| s.get()) {
+        return true;
+    }
+    let t = TICK.with(|t| {
+        let v = t.get().wrapping_add(1);
+        t.set(v);
+        v
+    });
+    if t % 256 == 0 && crate::rt::deadline_passed() {
+        STOPPED.with(|s| s.set(true));
+        return true;
+    }
+    false
+}
+
+/// (kind, timestamp) of every element, FlushBatch dropped.
+pub fn shape<T>(out: &[El<T>]) -> Vec<(u8, Option<i64>)> {
+    out.iter()
+        .map(crate::kit::kind_of)
+        .filter(|(k, _)| *k != crate::kit::K_FB)
+        .collect()
+}
+
+/// The watermark-safety monitor (C06) on the shape of an output sequence.
+pub fn watermark_safety(sh: &[(u8, Option<i64>)]) -> Option<(&'static str, String)> {
+    let mut wm: Option<i64> = None;
+    for (i, (k, t)) in sh.iter().enumerate() {
+        match *k {
+            crate::kit::K_WM => {
+                let w = t.unwrap();
+                if wm.map(|x| w <= x).unwrap_or(false) {
+                    return Some(("watermark-not-increasing", format!("output #{i}: Watermark({w}) after Watermark({})", wm.unwrap())));
+                }
+                wm = Some(w);
+            }
+            crate::kit::K_TS => {
+                let ts = t.unwrap();
+                if wm.map(|x| ts <= x).unwrap_or(false) {
+                    return Some(("element-behind-watermark", format!("output #{i}: element with timestamp {ts} after Watermark({})", wm.unwrap())));
+                }
+            }
+            crate::kit::K_FAR => wm = None,
+            _ => {}
+        }
+    }
+    None
+}
+
+/// The grammar monitor (C05): ((Item|Timestamped|Watermark|FlushBatch)* FlushAndRestart)+ Terminate.
+pub fn grammar(sh: &[(u8, Option<i64>)]) -> Option<(&'static str, String)> {
+    let n = sh.len();
+    if n == 0 || sh[n - 1].0 != crate::kit::K_TERM {
+        return Some(("no-terminate", "sequence does not end with Terminate".into()));
+    }
+    if n < 2 || sh[n - 2].0 != crate::kit::K_FAR {
+        return Some(("terminate-without-flush", "Terminate is not preceded by FlushAndRestart".into()));
+    }
+    for (i, (k, _)) in sh.iter().enumerate().take(n - 1) {
+        if *k == crate::kit::K_TERM {
+            return Some(("terminate-not-last", format!("Terminate at #{i} is not last")));
+        }
+        if *k == crate::kit::K_FAR && i > 0 && sh[i - 1].0 == crate::kit::K_FAR && i == n - 2 {
+            // an empty iteration is fine
+        }
+    }
+    None
+}
+
+/// Drive the chain of a block that has one upstream block, feeding `script` from one upstream
+/// replica (one element per batch, or the whole script in one batch).
+pub fn drive_one_upstream<T, Op>(vc: renoir::verif::VerifChain<Op>, script: Vec<El<T>>, one_batch: bool) -> Vec<El<Op::Out>>
+where
+    T: renoir::operator::ExchangeData,
+    Op: Operator,
+{
+    let mut chain = vc.chain;
+    let mut tb = testkit::Testbed::new(vc.block_id, 0, 1);
+    let feeders = tb.upstream::<T>(vc.prev_blocks[0], 1);
+    tb.setup(&mut chain, BatchMode::fixed(1024));
+    let script = crate::kit::complete_script(script);
+    if one_batch {
+        feeders[0].send(script);
+    } else {
+        for e in script {
+            feeders[0].send(vec![e]);
+        }
+    }
+    drop(feeders);
+    let mut out = vec![];
+    for _ in 0..100_000 {
+        let e = chain.next();
+        let t = matches!(e, StreamElement::Terminate);
+        out.push(e);
+        if t {
+            return out;
+        }
+    }
+    panic!("operator chain did not terminate");
 }
